@@ -70,10 +70,10 @@ type gExtend struct {
 }
 
 type gMethod struct {
-	Name               string
-	In, Out            string
-	InStream, OutStrm  bool
-	Opts               []string
+	Name              string
+	In, Out           string
+	InStream, OutStrm bool
+	Opts              []string
 }
 
 type gSvc struct {
@@ -88,15 +88,15 @@ type gImport struct {
 }
 
 type gFile struct {
-	Path    string
-	Syntax  string // proto2 | proto3 | editions
-	Pkg     string
-	Imports []gImport
-	Opts    []string
-	Msgs    []*gMsg
-	Enums   []*gEnum
-	Exts    []*gExtend
-	Svcs    []*gSvc
+	Path        string
+	Syntax      string // proto2 | proto3 | editions
+	Pkg         string
+	Imports     []gImport
+	Opts        []string
+	Msgs        []*gMsg
+	Enums       []*gEnum
+	Exts        []*gExtend
+	Svcs        []*gSvc
 	closedEnums bool // enums of this file are closed unless overridden
 	// raw text appended at the end (used by mutators)
 	Tail string
@@ -322,12 +322,12 @@ var scalarTypes = []string{"int32", "int64", "uint32", "uint64", "sint32", "sint
 
 // typeInfo describes a type a file may reference.
 type typeInfo struct {
-	Full    string
-	IsEnum  bool
-	Enum    *gEnum
-	Msg     *gMsg
-	file    *gFile
-	HasExt  bool // message with an extension range
+	Full   string
+	IsEnum bool
+	Enum   *gEnum
+	Msg    *gMsg
+	file   *gFile
+	HasExt bool // message with an extension range
 }
 
 // visibleFiles computes own ∪ direct imports ∪ public closure of those.
